@@ -129,7 +129,9 @@ class Divider(FormulaStep):
         """
         val2 = eval_stack.pop()
         val1 = eval_stack.pop()
-        res = val1 / val2
+        # A division by zero has no defined result: emit a missing value for this
+        # timestamp instead of raising, which would drop the whole sample.
+        res = val1 / val2 if val2 != 0.0 else math.nan
         eval_stack.append(res)
 
 
